@@ -17,10 +17,12 @@ EXTENDS CDCLT, Sat, Lin, Json, IOUtils
 
 Tr == ndJsonDeserialize(IOEnv.TRACE)
 
-VARIABLES tt, dom, l, viol, run, fr
-\* fr: frame index -> [asserted |-> set of terms, gives |-> set of terms]
+VARIABLES tt, dom, l, viol, run, fr, gv
+\* fr: frame index -> [id |-> frame id, asserted |-> set of terms]   (the current assertion stack)
+\* gv: frame id -> set of root formulas given to the engine under that frame's literal;
+\*     re-processing a frame after a new assertion adds to its roots, a popped frame's id is never reused
 
-vars == <<db, tt, dom, l, viol, run, fr>>
+vars == <<db, tt, dom, l, viol, run, fr, gv>>
 Ev == Tr[l]
 
 V(p, why) == [p |-> p, l |-> l, why |-> why, sid |-> run.sid, cfg |-> run.cfg, kind |-> run.kind]
@@ -30,22 +32,22 @@ If(c, v) == IF c THEN {v} ELSE {}
 Step == l' = l + 1
 SetOf(s) == { s[i] : i \in DOMAIN s }
 
-Init == /\ CInit /\ tt = <<>> /\ dom = <<>> /\ l = 1 /\ viol = 0 /\ fr = <<>>
+Init == /\ CInit /\ tt = <<>> /\ dom = <<>> /\ l = 1 /\ viol = 0 /\ fr = <<>> /\ gv = <<>>
         /\ run = [sid |-> "", cfg |-> "", kind |-> ""] /\ TLCSet(2, 0)
 
-TrFam == /\ Ev.e = "Fam" /\ Step /\ tt' = Ev.tt /\ dom' = Ev.dom /\ db' = {} /\ fr' = <<>>
+TrFam == /\ Ev.e = "Fam" /\ Step /\ tt' = Ev.tt /\ dom' = Ev.dom /\ db' = {} /\ fr' = <<>> /\ gv' = <<>>
          /\ run' = [sid |-> "", cfg |-> "", kind |-> ""] /\ viol' = viol /\ TLCSet(2, l)
 TrRun == /\ Ev.e = "Run" /\ Step /\ run' = [sid |-> Ev.sid, cfg |-> Ev.cfg, kind |-> Ev.kind]
-         /\ db' = {} /\ fr' = <<>> /\ UNCHANGED <<tt, dom>> /\ viol' = viol /\ TLCSet(2, l)
+         /\ db' = {} /\ fr' = <<>> /\ gv' = <<>> /\ UNCHANGED <<tt, dom>> /\ viol' = viol /\ TLCSet(2, l)
 
 TrInput ==
   /\ Ev.e = "cl" /\ Ev.kind = "input" /\ Step /\ AddInput(SetOf(Ev.lits))
-  /\ UNCHANGED <<tt, dom, run, fr>> /\ Note({})
+  /\ UNCHANGED <<tt, dom, run, fr, gv>> /\ Note({})
 
 TrLearn ==
   /\ Ev.e = "cl" /\ Ev.kind \in {"learnt", "derived"} /\ Step
   /\ Learn(SetOf(Ev.lits))
-  /\ UNCHANGED <<tt, dom, run, fr>>
+  /\ UNCHANGED <<tt, dom, run, fr, gv>>
   /\ Note(If(~LearnGuard(SetOf(Ev.lits)), V("C12", [site |-> Ev.site, clause |-> Ev.lits])))
 
 \* the negated clause as a set of theory literals (terms); satisfiable => the clause is not valid
@@ -54,15 +56,15 @@ TheoryViol(kind) ==
      V("C11", [kind |-> kind, clause |-> Ev.lits]))
 TrTheory ==
   /\ Ev.e = "tcl" /\ Step /\ AddTheory(SetOf(Ev.lits))
-  /\ UNCHANGED <<tt, dom, run, fr>>
+  /\ UNCHANGED <<tt, dom, run, fr, gv>>
   /\ Note(TheoryViol(Ev.kind))
 TrRootDed ==
   /\ Ev.e = "rootded" /\ Step /\ AddTheory(SetOf(Ev.lits))
-  /\ UNCHANGED <<tt, dom, run, fr>>
+  /\ UNCHANGED <<tt, dom, run, fr, gv>>
   /\ Note(TheoryViol("root deduction"))
 
 TrFarkas ==
-  /\ Ev.e = "farkas" /\ Step /\ UNCHANGED <<db, tt, dom, run, fr>>
+  /\ Ev.e = "farkas" /\ Step /\ UNCHANGED <<db, tt, dom, run, fr, gv>>
   /\ LET coefs == [i \in DOMAIN Ev.coefs |-> <<Ev.coefs[i].n, Ev.coefs[i].d>>] IN
      Note(IF ~Ev.mon THEN {}
           ELSE IF ~FarkasShapeOK(tt, Ev.lits, coefs) THEN {V("C26", "explanation and coefficients do not match")}
@@ -74,17 +76,18 @@ TrFarkas ==
 \* preprocessing
 Drop(f, i) == [j \in { k \in DOMAIN f : k < i } |-> f[j]]
 TrFrame ==
-  /\ Ev.e = "frame" /\ Step /\ UNCHANGED <<db, tt, dom, run>>
-  /\ fr' = (Ev.idx :> [asserted |-> SetOf(Ev.asserted), gives |-> {}]) @@ Drop(fr, Ev.idx)
+  /\ Ev.e = "frame" /\ Step /\ UNCHANGED <<db, tt, dom, run, gv>>
+  /\ fr' = (Ev.idx :> [id |-> Ev.id, asserted |-> SetOf(Ev.asserted)]) @@ Drop(fr, Ev.idx)
   /\ Note({})
 TrGive ==
-  /\ Ev.e = "give" /\ Step /\ UNCHANGED <<db, tt, dom, run>>
-  /\ fr' = IF Ev.idx \in DOMAIN fr THEN [fr EXCEPT ![Ev.idx].gives = @ \cup {Ev.root}] ELSE fr
+  /\ Ev.e = "give" /\ Step /\ UNCHANGED <<db, tt, dom, run, fr>>
+  /\ gv' = IF Ev.id \in DOMAIN gv THEN [gv EXCEPT ![Ev.id] = @ \cup {Ev.root}]
+           ELSE (Ev.id :> {Ev.root}) @@ gv
   /\ Note({})
-Given(i) == UNION { fr[j].gives : j \in { k \in DOMAIN fr : k <= i } }
+Given(i) == UNION { gv[fr[j].id] : j \in { k \in DOMAIN fr : k <= i /\ fr[k].id \in DOMAIN gv } }
 \* q: for every assertion a of the frame, its negation na and candidate models h of Given /\ na
 TrFrameEnd ==
-  /\ Ev.e = "fend" /\ Step /\ UNCHANGED <<db, tt, dom, run, fr>>
+  /\ Ev.e = "fend" /\ Step /\ UNCHANGED <<db, tt, dom, run, fr, gv>>
   /\ Note(IF ~Ev.mon \/ Ev.idx \notin DOMAIN fr THEN {}
           ELSE { V("C13", [frame |-> Ev.idx, assertion |-> Ev.q[i].a]) :
                    i \in { j \in DOMAIN Ev.q :
@@ -92,7 +95,7 @@ TrFrameEnd ==
                              /\ SatStatus(tt, Given(Ev.idx) \cup {Ev.q[j].na}, <<>>, Ev.q[j].h, dom) = "sat" } })
 
 TrOther ==
-  /\ Ev.e \in {"check", "Exit"} /\ Step /\ UNCHANGED <<db, tt, dom, run, fr>> /\ Note({})
+  /\ Ev.e \in {"check", "Exit"} /\ Step /\ UNCHANGED <<db, tt, dom, run, fr, gv>> /\ Note({})
 
 Next == /\ l <= Len(Tr)
         /\ \/ TrFam \/ TrRun \/ TrInput \/ TrLearn \/ TrTheory \/ TrRootDed \/ TrFarkas
